@@ -38,7 +38,7 @@ CLAIMED = {
          "One-shot checks of every class (durability when the stream ends) and every history up to length 3/4 over 13 check outcome classes (incl. three whose event-report answers dictate a poll interval, i.e. commits in the middle of a check), 4 ping outcomes and end-of-wait inside the reboot wait, and restart (CUP on/off, plus a construction-failure configuration) runs on the real state machine with a clock that is never microsecond aligned; the reference (failures since last success; last contact only on answered checks / successful pings) is compared with the announcements and the next policy call, and after EVERY storage commit a fresh state machine is built on the surviving snapshot: it must present the values before or after the current step, never a mixture, and the values after once the step has finished.",
          "Crash = loss of exactly the uncommitted writes (atomic commit contract); histories longer than the bound not reached; 'failed check' = Err result.", "3/C08"),
  "C09": ("smx", SMX,
-         "Histories of checks (incl. install + reboot wait), failed checks (transport, unparseable, forged body carrying cohorts), pings, end of wait and restarts with every subset of embedder presets run on the real state machine for app sets of 1-3 apps; responses name sub-lists/orders of the set incl. an unknown id with each cohort field present/empty/absent and daystart present/absent/without days; after every step the reference app table is compared with the next policy call, with the cohort fields and ping dates of every request sent, and with what a machine rebuilt (without presets) on the committed storage restores.",
+         "Histories of checks (incl. install + reboot wait), failed checks (transport, unparseable, forged body carrying cohorts), pings, end of wait and restarts with every subset of embedder presets run on the real state machine for app sets of 1-3 apps; responses name sub-lists/orders of the set incl. an unknown id with each cohort field present/empty/absent and daystart present/absent/without days; after every step the reference app table is compared with the next policy call, with the cohort fields and ping dates of every request sent, with what a machine rebuilt (without presets) on the committed storage restores, and - for every commit inside a successful check or ping - with the requirement that the rebuilt machine sees contact time and app data of the same side of the step.",
          "Step kinds exhaustive, field choices deviation-bounded (see evidence); duplicate app ids in one response not generated.", "3/C09"),
  "C18": ("smx", SMX,
          "Histories of install attempts (plan id, offered apps, per-app results, manifest version present or not), plan failures, idle iterations and restarts (on the target or another version; consistent clocks, wall clock behind until a later loop, monotonic clock racing ahead) run on the real state machine; the reference tracks first-seen per plan, consecutive failed installs and the durable reboot record; metrics are compared (attempt counts exactly, durations against clock windows), and after every clean install the storage surviving a crash at the first reboot question is rebuilt on the target version and must report exactly one waited-for-reboot metric.",
@@ -53,7 +53,7 @@ CLAIMED = {
          "On five base scripts run on the real state machine with overflow checks on (two parts additionally with a tracing subscriber that formats every log event): every single failing storage write, every pair, all-of-a-kind, all-on-a-key and everything (differential: events and wire requests equal the healthy run); every protocol key and the app JSON preset to each of 13 extreme / mistyped values (singles, and all pairs in thorough); a wall-clock jump from a 7-entry menu before any clock read (<=1/2 per run); every truncation and single-bit flip of 4 response documents, every status 100-599 x 6 header sets x CUP, and 62 service URL strings through the one-shot flow; each check must end with a delivered result and nothing may unwind.",
          "Installer/policy answers are contract-conforming; log formatting is exercised in the two with-logging parts only; inputs outside the listed families are not reached.", "3/C14"),
  "C11": ("smx", SMX,
-         "The real state machine runs with every environment operation blocking (timers, HTTP, plan, install, progress, reboot) and the select! branch order owned by the explorer; clients issue 1-2 requests whose injection step is enumerated exhaustively over the horizon, combined with bounded non-default scheduling / select-order choices and all environment scripts (throttled, no update, install + reboot wait); after a default-schedule drain every request must have exactly one reply, and each reply is matched against the policy call log (Started/Throttled need a distinct decision with the request's options and that answer between send and reply; AlreadyRunning needs an overlapping busy interval; on-demand upgrades of the reboot question need an on-demand request, and once an on-demand request was accepted for a check every later reboot question of it must be on-demand); dropping all handles / the stream at every step is explored separately.",
+         "The real state machine runs with every environment operation blocking (timers, HTTP, plan, install, progress, reboot) and the select! branch order owned by the explorer; clients issue 1-2 requests whose injection step is enumerated exhaustively over the horizon, combined with bounded non-default scheduling / select-order choices and all environment scripts (throttled, no update, install + reboot wait with the reboot refused once or twice); after a default-schedule drain every request must have exactly one reply, and each reply is matched against the policy call log (Started/Throttled need a distinct decision with the request's options and that answer between send and reply; AlreadyRunning needs an overlapping busy interval; on-demand upgrades of the reboot question need an on-demand request, and once an on-demand request was accepted for a check every later reboot question of it must be on-demand); dropping all handles / the stream at every step is explored separately.",
          "Same-thread use of ControlHandle; horizon 40/50 steps; deviation bound 1-3 on scheduling choices other than the injection step.", "3/C11"),
  "C12": ("smx", SMX,
          "Timers are pending operations fired by the explorer in every order and subset (bounded non-default scheduling choices) for all timing shapes (wall / monotonic / both) x minimum wait (none, 7 s, 0 s) x policy answers (allowed / too soon) x optional control request over 2-3 loop iterations, and in the reboot wait with the reboot refused once or twice and control requests (scheduled; on-demand then scheduled) arriving at any point; log invariants: one timing question per wait, announced unchanged, exactly the timers it prescribes, an unrequested decision or ping only after all of them fired (and it does begin once they have), the reboot question re-asked only when justified by a firing of its 30-minute timer or by one not yet answered on-demand request.",
@@ -62,7 +62,7 @@ CLAIMED = {
          "Histories of 2-3 loop iterations, each triggered by timers / a scheduled request / an on-demand request (exhaustive), with bounded non-default environment answers among 19 check decisions (both positive kinds x all parameter combinations, three negatives), server answers incl. retries and updates for one or both of two apps, 3 install decisions, plan errors, independent per-app install results, reboot-needed and five reboot-allowed sequences (incl. accepted and refused on-demand requests and a scheduled request during the wait) run on the real state machine; invariants over the single call log: every wire request inside an allowed check and carrying exactly the returned parameters (event reports included), installer only after approval of that very plan, reboot only after a clean install + needed + most recent 'yes', on-demand reboot question only with an on-demand source; every invalid app set must end the stream with zero environment calls.",
          "Deviation bound 3/4 on environment answers; one-shot path bypasses the check decision by design.", "3/C05"),
  "C13": ("smx", SMX,
-         "(generator) every program over 8 operations up to length 4-6 runs on the real async_generator for 5 adaptors under a controlled executor: poll-when-woken plus bounded deviations (spurious polls, other completion orders, early drop) and extra polls after the end; the received sequence must equal the reference (each item once, in order, one completion, then end, is_terminated consistent), the next program step may start only after the consumer took the yielded items, every completion must wake the task, no deadlock; (state machine) update + install with 0-3 progress values, all operations blocking, delayed and spurious consumer polls: progress in order before the outcome, request / installer / reboot only after the consumer took the corresponding state event, acknowledgement only after receipt, no lost wake-up, no deadlock.",
+         "(generator) every program over 8 operations up to length 4-6 runs on the real async_generator for 5 adaptors under a controlled executor: poll-when-woken plus bounded deviations (spurious polls, other completion orders, early drop) and extra polls after the end; the received sequence must equal the reference (each item once, in order, one completion, then end, is_terminated consistent), the next program step may start only after the consumer took the yielded items, every completion must wake the task, no deadlock; (state machine) update + install with 0-3 progress values, all operations blocking, delayed and spurious consumer polls: the installer either awaits every acknowledgement or reports its last value and finishes in the same poll: progress in order and complete before the outcome, request / installer / reboot only after the consumer took the corresponding state event, acknowledgement only after receipt, no lost wake-up, no deadlock.",
          "Consumer modelled as a `while let Some(..) = next().await` loop; deviation bounds as in the evidence.", "3/C13"),
  "C17": ("smx", SMX,
          "Requests built by the client library (1-3 apps in every order, 5 service URLs with paths and queries, 4 key configurations x 0-2 server historical keys, parameters, cohorts, update-check and 4 event request kinds, 5 configured response kinds per app; deviation-bounded product) are handed to mock_omaha_server::handle_request in-process: no panic, the client parser accepts the body (except the invalid kind), apps in request order with the configured decision, the ETag verifies with the client verifier for its own exchange and not for the sibling exchange; the real state machine with the real CUP handler runs two checks against the in-process mock for every response kind x forced ETag x CUP x URL, with a reconfiguration through /set_responses_by_appid between the checks.",
